@@ -82,6 +82,17 @@ CLAIMED = {
              "'only when it extends the span' rule and the listing by the correspondence and the recomputing oracle.",
         note=TTY_NOTE,
         technique="Coq proof: symbolic execution of the completion branch per key; induction for LCP and for uniqueness of the script's text; extracted-model differential check through a pty + recomputing oracle"),
+    "C17": dict(
+        text="Theorems over the editor model, for EVERY character stream (undecodable bytes included), chunking, mode, helper, "
+             "binding set and history: the byte decoder is total -- a key with at least one character consumed, or end of input "
+             "/ undecodable byte, never a panic or a loop; reading a command consumes at least one character and executing one "
+             "reads nothing, so the main loop with all its sub-loops (digit arguments, key sequences, paste, completion, pager, "
+             "incremental search) terminates on its own: with more fuel than input it never runs dry, hence a read never ends "
+             "in OutOfFuel (the model-level statement of 'no input can wedge a read'); Undo never panics in a reachable state. "
+             "PARTIAL: panic-freedom of the remaining commands, the select/poll path with a printer, resizes and stop/continue "
+             "are decided by the junk stream on the real back end (catch_unwind, stall detection, a result for every read).",
+        note=TTY_NOTE + "Runtime behaviour (signals, unsafe, kernel) is exercised, not modelled.",
+        technique="Coq proof: progress calculus over the editor monad (input size non-increasing / decreasing, fuel bounded by input) with fuel induction for all nine loops; totality calculus for the decoder; extracted-model differential check on junk input through a pty + crash/stall oracle"),
     "C13": dict(
         text="Theorems for every validator, editor state and text: executing Enter / C-j / C-m says Submit only if the verdict on "
              "the current text is Valid, and then text and cursor are exactly those validated; a Valid verdict does submit; "
